@@ -101,6 +101,11 @@ type runOut struct {
 	PacketsBegunAfterFault int
 	cancel     context.CancelFunc
 	Elapsed    time.Duration
+	// stuck-state evidence captured when the watchdog fired (before the context is cancelled)
+	StuckReaders int
+	StuckArmed   bool
+	StuckQueue   int
+	StuckStacks  string
 	FiredWall  time.Time
 	ReturnWall time.Time
 }
@@ -347,6 +352,11 @@ func runScenarioWith(sc scn, seed int64, f *fault, readTimeout time.Duration, ba
 	})
 	out.ReturnWall = time.Now()
 	out.Elapsed = time.Since(start)
+	if !out.Returned {
+		out.StuckReaders, out.StuckArmed = sim.Conn.BlockedReaders()
+		out.StuckQueue = sim.Conn.QueueLen()
+		out.StuckStacks = strings.Join(libraryGoroutines(), "\n---\n")
+	}
 	if out.Returned {
 		foreign.Wait()
 	}
